@@ -11,13 +11,18 @@ reduces scalars modulo `r` the point is assumed to satisfy `r • P = 0` (a poin
 `GOps.ofGroup G` is the dictionary (add, neg, zero) of the group, so the theorems are about the very definitions the
 driver runs on curve points.
 
-Where the Go code departs from these models (found by K, the models follow the property):
-* `G1Jac/G2Jac.JointScalarMultiplication(Base)`: index panic exactly when some |sᵢ| ≥ 2^(64·fr.Limbs) (`C03_jointPanics_iff`);
-* stark-curve `mulWindowed` has no sign folding (`[s]P = [|s|]P` for s < 0);
+Where the Go code departs (or departed) from these models (found by K, the models follow the property):
+* `G1Jac.JointScalarMultiplication(Base)`: BEFORE /repo commit 90fc5e6 an index panic exactly when some |sᵢ| ≥ 2^(64·fr.Limbs)
+  (`C03_jointPanics_iff` characterises those inputs); the current text clamps the loop bound to `fr.Limbs - 1` — model of the
+  text as written: `jointScalarMulC`, `C03_jointScalarMulC`; tie T: `Props/C03_loop_gen`;
+* stark-curve `mulWindowed` had no sign folding (`[s]P = [|s|]P` for s < 0); REPAIRED in /repo: the current text folds the sign and
+  its translation is proved equal to the bn254 term (`Gen/Imp/MulWAll.lean`, `C03loop_mulWindowed_smul_all`);
 * bandersnatch `scalarMulGLV`: (a) sub-scalars are reduced modulo the BASE field `fr` of bls12-381 instead of the subgroup
   order, wrong results once |s| ≳ 2^640; (b) `phi` of the identity (0,1) has Z = 0, `[s]O` comes out as (0,0) whenever k₂ ≠ 0.
 
-Left partial (tie K only): the models are hand-written mirrors of the loops (no mechanical translation); the group law of
+Tie T for the loops (`mulWindowed`, twisted-Edwards `scalarMulWindowed`, `JointScalarMultiplication`, `mulGLV`): `Props/C03_loop_gen`
+(the translated Go text equals these models). Left to tie K only: `BatchScalarMultiplication`, `SplitScalar` / `PrecomputeLattice`,
+bandersnatch `scalarMulGLV`; the group law of
 the concrete curves (associativity, `φ = [λ]`, `[r]G = O`) is the hypothesis `AddCommGroup G` / `hphi` / `hr`;
 `bestC ∈ 2..16` is used as a hypothesis of `C03_batchWith` (`1 ≤ c ≤ 16`).
 -/
@@ -92,6 +97,29 @@ theorem C03_jointScalarMul (r : ℕ) (s1 s2 : ℤ) (P Q : G) (hP : r • P = 0) 
 
 example : (5 : ℕ) • (3 : ZMod 5) = 0 := by decide
 
+/-- the same for the text AS WRITTEN since /repo commit 90fc5e6 (loop bound clamped to the `limbs` words of an `fr.Element`,
+`0 < r ≤ 2^(64·limbs)`): no input panics any more and the value is still `s₁ • P + s₂ • Q` for all integers. -/
+theorem C03_jointScalarMulC (r limbs : ℕ) (hr0 : 0 < r) (hl : 1 ≤ limbs) (hrl : r ≤ 2 ^ (64 * limbs)) (s1 s2 : ℤ) (P Q : G)
+    (hP : r • P = 0) (hQ : r • Q = 0) :
+    jointScalarMulC (GOps.ofGroup G) r limbs s1 s2 P Q = s1 • P + s2 • Q := by
+  unfold jointScalarMulC
+  dsimp only
+  have hb : ∀ k : ℕ, bitLen k ≤ 64 * (hiWordIndex (bitLen s1.natAbs) (bitLen s2.natAbs) + 1) →
+      k % r < 2 ^ (64 * (clampHi limbs (hiWordIndex (bitLen s1.natAbs) (bitLen s2.natAbs)) + 1)) := by
+    intro k hk
+    unfold clampHi
+    split
+    · have : limbs - 1 + 1 = limbs := by omega
+      rw [this]; exact lt_of_lt_of_le (Nat.mod_lt _ hr0) hrl
+    · exact lt_of_le_of_lt (Nat.mod_le _ _) (lt_pow_of_bitLen_le _ _ hk)
+  rw [shamirLoop_eq]
+  · rw [mod_nsmul r _ _ (nsmul_signPt_zero r s1 P hP), mod_nsmul r _ _ (nsmul_signPt_zero r s2 Q hQ),
+      natAbs_smul_signPt, natAbs_smul_signPt]
+  · exact hb _ (bitLen_le_hi_left _ _)
+  · exact hb _ (bitLen_le_hi_right _ _)
+
+example : (0 : ℕ) < 5 ∧ 1 ≤ 1 ∧ 5 ≤ 2 ^ (64 * 1) := by decide
+
 /-- `mulGLV` (table of `±P, ±φP`, sub-scalars reduced mod `r`, loop bound from the reduced sub-scalars) is `s • P`
 whenever `φ P = λ • P`, `r • P = 0` and the split satisfies the congruence. -/
 theorem C03_mulGLV (phi : G → G) (split : ℤ → ℤ × ℤ) (r : ℕ) (lam s : ℤ) (P : G)
@@ -126,8 +154,9 @@ theorem C03_variants_agree (phi : G → G) (r : ℕ) (lam s : ℤ) (P : G) (hphi
   rw [C03_mulWindowed, C03_mulGLVLattice phi r lam s P hphi hr, C03_teScalarMul, C03_jointScalarMul r s 0 P P hr hr]
   simp
 
-/-- exact characterisation of the inputs on which the Go `JointScalarMultiplication` indexes past the `fr.Limbs`-word
-array (`hiWordIndex ≥ limbs`): some |sᵢ| ≥ 2^(64·limbs). The model is total there and `C03_jointScalarMul` applies. -/
+/-- exact characterisation of the inputs on which the Go `JointScalarMultiplication` BEFORE /repo commit 90fc5e6 indexed past the
+`fr.Limbs`-word array (`hiWordIndex ≥ limbs`): some |sᵢ| ≥ 2^(64·limbs) — exactly the inputs on which the clamp of the current
+text (`clampHi`) is active. The models are total there and `C03_jointScalarMul` / `C03_jointScalarMulC` apply. -/
 theorem C03_jointPanics_iff (limbs : ℕ) (hl : 1 ≤ limbs) (s1 s2 : ℤ) :
     jointPanics limbs s1 s2 = true ↔ 2 ^ (64 * limbs) ≤ s1.natAbs ∨ 2 ^ (64 * limbs) ≤ s2.natAbs := by
   unfold jointPanics hiWordIndex
